@@ -262,8 +262,55 @@ def rule_m14(repo):
     return res
 
 
+def rule_m15(repo):
+    """An expansion that strips a prefix (quantified variables, assumptions) off a statement, proves the
+    core and puts the prefix back wraps from the inside out: the list that the stripping returned outermost-first is
+    walked in reverse.  Walking it forward rebuilds !y. !x. P for !x. !y. P - a theorem, but not the statement the
+    evaluation reports, so the checker rejects the step."""
+    res = RuleResult('C04.M15', 'a prefix that was stripped outermost-first is put back by wrapping in reverse order', floor=2)
+    WRAP_METHODS = ('forall_intr', 'implies_intr', 'abstraction')
+    WRAP_CTORS = ('Forall', 'Exists', 'Implies', 'Lambda')
+    for m in repo.source_modules():
+        for f in m.all_funcs:
+            stripped = {}
+            for a in ast.walk(f.node):
+                if isinstance(a, ast.Assign) and isinstance(a.value, ast.Call) and (call_name(a.value) or call_attr(a.value) or '').split('.')[-1].startswith('strip_'):
+                    for t in a.targets:
+                        for x in ast.walk(t):
+                            if isinstance(x, ast.Name):
+                                stripped[x.id] = (call_name(a.value) or call_attr(a.value)).split('.')[-1]
+            if not stripped:
+                continue
+            for l in ast.walk(f.node):
+                if not (isinstance(l, ast.For) and len(l.body) == 1 and isinstance(l.body[0], ast.Assign) and isinstance(l.target, ast.Name) and
+                        isinstance(l.body[0].targets[0], ast.Name)):
+                    continue
+                a = l.body[0]
+                acc, v, x = a.targets[0].id, a.value, l.target.id
+                wrap = None
+                if isinstance(v, ast.Call) and isinstance(v.func, ast.Attribute) and v.func.attr in WRAP_METHODS and is_name(v.func.value, acc) and \
+                        len(v.args) == 1 and is_name(v.args[0], x):
+                    wrap = v.func.attr
+                if isinstance(v, ast.Call) and isinstance(v.func, ast.Name) and v.func.id in WRAP_CTORS and len(v.args) == 2 and is_name(v.args[0], x) and is_name(v.args[1], acc):
+                    wrap = v.func.id
+                if not wrap:
+                    continue
+                it = l.iter
+                rev = isinstance(it, ast.Call) and call_name(it) == 'reversed' and it.args
+                base = it.args[0] if rev else it
+                if isinstance(base, ast.Subscript) and isinstance(base.slice, ast.Slice) and base.slice.step is not None:
+                    continue      # an explicit step: order chosen deliberately
+                if not (isinstance(base, ast.Name) and base.id in stripped):
+                    continue
+                res.add('%s :: %s :: rewrap(%s by %s)' % (m.rel, f.qualname, base.id, wrap), bool(rev),
+                        'the list returned by %s is wrapped in reverse' % stripped[base.id] if rev else
+                        'line %d walks `%s` (from %s, outermost first) forward while wrapping with %s: the prefix comes back in the opposite order '
+                        '(trivial proved !y. !x. .. for the advertised !x. !y. ..)' % (l.lineno, base.id, stripped[base.id], wrap), '%s:%d' % (m.rel, l.lineno))
+    return res
+
+
 def rules(repo):
     m1 = mr.hyps_rule(repo, 'C04.M1', mr.all_macros, floor=95)
     m2 = mr.zip_rule(repo, 'C04.M2', mr.macro_eval_functions(repo), floor=4)
     return [m1, m2, rule_m3(repo), rule_m5(repo), rule_m6(repo), rule_m7(repo), rule_m8(repo), rule_m9(repo), rule_m10(repo), mr.expansion_uses_rule(repo, 'C04.M11', mr.all_macros, floor=25),
-            mr.argument_dependence_rule(repo, 'C04.M12', mr.all_macros, floor=30), rule_m13(repo), rule_m14(repo)]
+            mr.argument_dependence_rule(repo, 'C04.M12', mr.all_macros, floor=30), rule_m13(repo), rule_m14(repo), rule_m15(repo)]
